@@ -33,10 +33,22 @@ P("C03", "proof", "Lean 4 theorems (induction over tokens and over the step list
   theorems=["TP.C03.dei_reverse", "TP.C03.dei_interleave", "TP.C03.dei_exhaust", "TP.C03.dei_stays_exhausted", "TP.C03.dei_conservation"],
   rule=NONTRIV + "non-trivial = at least two components; distinct by (encoding, input, mask)", design_ref="§5 C03")
 
-P("C04", "translation_validation", "Lean model vs code differential + clause oracle",
-  "Checked push outcome and bytes against the model; the four clauses of the property evaluated on the implementation "
-  "for well-formed bases x hostile arguments.",
-  TV_NOTE + "Known finding K3 (base beginning with two separators) is set aside by a narrow class predicate.",
+P("C04", "proof", "Lean 4 theorems (acceptance rule, first-offender error, Unix append lemma) + model/code correspondence; Windows keeps-base clause by oracle (known finding K3)",
+  "Proved in Lean for both encodings: the checked push succeeds exactly when the argument has no prefix, no root, no "
+  "invalid name and no `..` outnumbering the names before it, stated with counts over every initial segment "
+  "(checked_accepts_iff, scan_none_iff, neverClimbs_iff_counts), and then equals the unchecked join "
+  "(checked_ok_eq_push); an error names the first offending component, everything before it being acceptable "
+  "(checked_error_first). For Unix the result's components are exactly the base's followed by the argument's minus a "
+  "leading `.`, and the added components never climb (unix_checked_keeps_base, unix_checked_empty_base).",
+  "Partial: the keeps-base clause for Windows is not proved — it is false at known finding K3 (proved as "
+  "windows_K3_witness) and needs the Windows append lemma otherwise; the oracle decides it on every run with K3 set "
+  "aside by a narrow class predicate. 'Failure leaves the base unchanged' is by construction in the model (no buffer is "
+  "returned on error) and is checked on the implementation by the correspondence (MUTATED flag). Model=code by "
+  "differential testing; byte/UTF-8/typed forms agree: oracle.",
+  theorems=["TP.C04.neverClimbs_iff_counts", "TP.C04.scan_none_iff", "TP.C04.checked_accepts_iff", "TP.C04.checked_ok_eq_push",
+            "TP.C04.checked_error_first", "TP.C04.unix_checked_keeps_base", "TP.C04.unix_checked_empty_base", "TP.C04.windows_K3_witness",
+            "TP.unix_push_comps"],
+  modules=["TypedPathVerif.Lemmas.Append"],
   rule=NONTRIV + "non-trivial = argument has >= 2 components or is rejected", design_ref="§5 C04")
 
 P("C05", "translation_validation", "Lean model vs code differential + clause oracle",
@@ -49,9 +61,18 @@ P("C06", "translation_validation", "Lean model vs code differential + std::path 
   TV_NOTE + "Known finding K1 (strip_prefix remainder keeps trailing junk) is set aside by a narrow class predicate.",
   rule=NONTRIV + "non-trivial = >= 2 components (unary) / true prefix relation (pairs)", design_ref="§5 C06")
 
-P("C07", "translation_validation", "Lean model vs code differential over histories + std::path::PathBuf oracle",
-  "Mutation histories against the model and against a real std::path::PathBuf driven by the same operations.",
-  TV_NOTE, rule="exhaustive histories of <= 2 ops over tiny arguments + seeded random histories; non-trivial = >= 2 ops; distinct by history", design_ref="§5 C07")
+P("C07", "proof", "Lean 4 invariant-by-induction over operation histories (model vs StdBuf) + model/code and StdBuf/std correspondence",
+  "Proved in Lean for every starting buffer and every finite history of push / pop / set_file_name / clear: the std "
+  "buffer is the typed-path buffer or that buffer plus one separator (unix_history_refines with invariant I), hence "
+  "the two are component-equal throughout (I_comps_eq), every Boolean result agrees, and right after pushing a "
+  "non-empty path the buffers are byte-identical (unix_history_bytes). StdBuf (std's documented push rule; pop and "
+  "set_file_name as std defines them) is compared with a real std::path::PathBuf on the same histories on every run.",
+  "StdBuf's pop/set_file_name use the model's Unix parent/file_name queries (related to StdSpec by C09/C12 theorems "
+  "and to std by the StdBuf/std differential). extend / collect / join / with_file_name are repeated or cloned pushes: "
+  "checked by the oracle against std, not by a theorem. set_extension histories are covered under C13. Model=code and "
+  "StdBuf=std by differential testing.",
+  theorems=["TP.C07.unix_history_refines", "TP.C07.I_comps_eq", "TP.C07.unix_history_bytes", "TP.C07.step_preserves"],
+  rule="exhaustive histories of <= 2 ops over tiny arguments + seeded random histories; non-trivial = >= 2 ops; distinct by history", design_ref="§5 C07")
 
 P("C08", "translation_validation", "Lean model vs code differential + rule-table oracle",
   "push bytes against the model; the documented rule table (independent re-implementation) on the implementation.",
